@@ -104,7 +104,7 @@ class _Dec:
         elif kind == 'Constituency':
             o = vc.Constituency(spec[1])
         elif kind == 'NOTA':
-            o = vc.NoneOfTheAbove()
+            o = vc.NoneOfTheAbove('NOTA')
         else:
             raise ValueError(spec)
         self.memo[key] = o
@@ -749,6 +749,34 @@ def _targets():
         (lambda rng: _c_stv_dist(rng, 'droopname')))
     add('TransferableVoteDistributor:step2', lambda: vseq.TransferableVoteDistributor(eliminate_step=-2, quota_function=None),
         (lambda rng: _c_stv_dist(rng, 'noquota')), stv_grid='noquota')
+    # --- InvalidVoteEliminator: every validator class x nominator kinds; ballots rejected for a CANDIDATE (CandidateError: a
+    # blank option under allow_blank=False, a party under PersonNominator, an independent, a person under PartyNominator) and
+    # for their FORM (VoteError), in every order in the votes dict
+    noms = [('basic_noblank', lambda: vcand.BasicNominator(allow_blank=False)), ('person', lambda: vcand.PersonNominator()),
+            ('person_noindep', lambda: vcand.PersonNominator(allow_independents=False, allow_blank=False)),
+            ('party_nocoal', lambda: vcand.PartyNominator(allow_coalitions=False)), ('basic', lambda: vcand.BasicNominator())]
+    vals = [('simple', lambda nom: vvote.SimpleVoteValidator(nominator=nom), 'simple'),
+            ('approval', lambda nom: vvote.ApprovalVoteValidator((1, 2), nominator=nom), 'approval'),
+            ('ranked', lambda nom: vvote.RankedVoteValidator((1, 3), nominator=nom), 'ranked'),
+            ('score', lambda nom: vvote.ScoreVoteValidator((1, 3), (0, 9), nominator=nom), 'score'),
+            ('range', lambda nom: vvote.RangeVoteValidator((0, 4), (1, 3), nominator=nom), 'score'),
+            ('enum', lambda nom: vvote.EnumScoreVoteValidator([0, 1, 2, 3], nominator=nom), 'score')]
+    for vn, mkv, vt in vals:
+        for nn, mkn in noms:
+            add(f'InvalidVoteEliminator:{vn}:{nn}', (lambda mkv=mkv, mkn=mkn: vconv.InvalidVoteEliminator(mkv(mkn()))),
+                (lambda rng, vt=vt: call('convert', _g_mixed_votes(rng, vt))), objects=True, eliminator=True,
+                state_ok=('validator.rank_vote_count_checkers', 'validator.sum_checkers'))
+    add('Chain:eliminator',
+        lambda: vconv.Chain([vconv.InvalidVoteEliminator(vvote.ApprovalVoteValidator((1, 2), nominator=vcand.BasicNominator(allow_blank=False))),
+                             vconv.ApprovalToSimpleVotes()]),
+        lambda rng: call('convert', _g_mixed_votes(rng, 'approval')), objects=True, eliminator=True)
+    add('convert.ByConstituency:eliminator',
+        lambda: vconv.ByConstituency(vconv.InvalidVoteEliminator(vvote.SimpleVoteValidator(nominator=vcand.PersonNominator()))),
+        lambda rng: call('convert', D([(d, _g_mixed_votes(rng, 'simple')) for d in DN[:rng.randint(1, 3)]])), objects=True, eliminator=True)
+    add('PreConverted:eliminator',
+        lambda: vcore.PreConverted(vconv.InvalidVoteEliminator(vvote.SimpleVoteValidator(nominator=vcand.BasicNominator(allow_blank=False))),
+                                   vcore.Plurality()),
+        lambda rng: call('evaluate', _g_mixed_votes(rng, 'simple'), g_seats(rng, 2)), objects=True, eliminator=True)
     # --- score family x constructor parameters (min_count > 0, bottom_value, truncation, unscored_value, tie-breaking)
     for nm, mk, bottom, mc in [
             ('MajorityJudgment:min3', lambda: vcard.MajorityJudgment(min_count=3), 0, 3),
@@ -956,6 +984,52 @@ def _c_score_underscored(rng, min_count, bottom):
     if rng.random() < 0.75:
         return call('evaluate', _g_score_underscored(rng, min_count, bottom), 2)
     return call('evaluate', g_score(rng), g_seats(rng, 2))
+
+
+def _mixed_pool(rng):
+    """candidates of every kind: names, persons with and without a party, parties, a coalition, blank options"""
+    return ['c0', 'c1', 'c2', {'O': ['NOTA']}, _party('A'), _party('B'), {'O': ['Coalition', 'K', ['A', 'B']]},
+            _person('p1', 1, 'A'), _person('p2', 2, 'B'), _person('p3', 3, None)]
+
+
+def _g_mixed_votes(rng, vt):
+    """votes of the given type over a mixed candidate pool, with well-formed ballots, ballots a nominator may reject for a
+    candidate, and malformed ballots (too many / duplicated candidates, scores out of range), shuffled"""
+    pool = _mixed_pool(rng)
+    kind = rng.choice(['uniform', 'uniform', 'mixed'])       # 'uniform': one kind of acceptable candidates + intruders
+    base = rng.choice([pool[:3], pool[7:9], pool[4:6], pool[7:10]]) if kind == 'uniform' else pool
+    intruders = [c for c in pool if c not in base] or pool
+    pairs, seen = [], set()
+    clean = rng.random() < 0.2          # nothing to eliminate: the converter hands the votes back
+    p_form = 0 if clean else rng.choice([0, 0.3, 0.5])
+
+    def cands(k):
+        cs = rng.sample(base, min(k, len(base)))
+        if not clean and rng.random() < 0.4:
+            cs[rng.randrange(len(cs))] = rng.choice(intruders)
+        return cs
+    for _ in range(rng.randint(2, 6)):
+        bad_form = rng.random() < p_form
+        if vt == 'simple':
+            b = rng.choice(intruders) if not clean and rng.random() < 0.4 else rng.choice(base)
+            if bad_form and rng.random() < 0.5:
+                b = S(['c0', 'c1'])                      # not an atomic candidate
+        elif vt == 'approval':
+            cs = cands(rng.randint(3, 4) if bad_form else rng.randint(1, 2))
+            b = S(cs)
+        elif vt == 'ranked':
+            cs = cands(rng.randint(1, 3))
+            if bad_form:
+                cs = cs + [cs[0]] if rng.random() < 0.5 else cs + rng.sample(base, min(2, len(base))) + ['c2']
+            b = T(cs)
+        else:
+            cs = cands(rng.randint(1, 3))
+            b = S([T([c, rng.choice([0, 1, 2, 3, 7, 12] if bad_form else [0, 1, 2, 3])]) for c in cs])
+        k = json.dumps(b, sort_keys=True)
+        if k not in seen:
+            seen.add(k)
+            pairs.append((b, g_count(rng, frac=False)))
+    return D(pairs)
 
 
 def vquota_mod():
@@ -1373,6 +1447,38 @@ def _invoke(t, obj, c, perturb=None, mode=None):
     return out, mut, tr
 
 
+def _rejection_routes(validator, votes):
+    """which rejection routes a votes dict exercises, in dict order (observed with a validator of the target's configuration)"""
+    import votelib.vote
+    import votelib.candidate
+    routes = []
+    if not isinstance(votes, dict):
+        return set()
+    for ballot in votes:
+        try:
+            validator.validate(ballot)
+        except votelib.candidate.CandidateError:
+            routes.append('C')
+        except votelib.vote.VoteError:
+            routes.append('V')
+        except Exception:
+            routes.append('?')
+    tags = set()
+    if 'C' in routes:
+        tags.add('reject:candidate_error')
+        if 'V' not in routes:
+            tags.add('reject:candidate_error_only')
+        elif routes.index('C') < routes.index('V'):
+            tags.add('reject:candidate_error_before_vote_error')
+        else:
+            tags.add('reject:vote_error_before_candidate_error')
+    if 'V' in routes:
+        tags.add('reject:vote_error')
+    if votes and not set(routes) & {'C', 'V'}:
+        tags.add('reject:none')
+    return tags
+
+
 def reseed_contract(t, events):
     """None if the event sequence of one call of a seeded component is an execution of the `seededStep` model: every draw
     is preceded, within the call, by `random.seed(<the component's seed>)`, and nothing else is ever seeded"""
@@ -1422,6 +1528,9 @@ def run_history(case):
                 tr.sites.add('call_after_exception')
                 if any(e in ('VotingSystemError', 'NotImplementedError') for e in prev_exc):
                     tr.sites.add('call_after_refusal')
+        if t.get('eliminator') and hasattr(obj, 'validator') and c['m'] == 'convert':
+            for site in _rejection_routes(obj.validator, _Dec(case.get('names'))(c['a'][0])):
+                tr.sites.add(site)
         for site in tr.sites:
             if site not in case.setdefault('_tags', []):
                 case['_tags'].append(site)
@@ -1646,7 +1755,9 @@ REQUIRED_COUNTERS = ['every_class', 'singleton', 'pav_cache_grows', 'pav_small_a
                      'draw:RandomUnrankedBallotSelector.evaluate', 'draw_via:initial_allocation', 'draw_via:direct_transfer',
                      'draw_via:next_count', 'foreign_first', 'model:dispatch', 'raise_first', 'call_after_exception',
                      'call_after_refusal', 'refusal_first', 'prev_gains_then_none', 'larger_then_smaller', 'smaller_after_larger',
-                     'score_params_underscored', 'stv_dist_no_quota_partial_caps', 'stv_dist_no_quota_none_caps', 'stv_dist_no_quota_full_caps',
+                     'eliminator_mixed_candidates', 'reject:candidate_error', 'reject:candidate_error_only',
+                     'reject:candidate_error_before_vote_error', 'reject:vote_error_before_candidate_error', 'reject:vote_error',
+                     'reject:none', 'score_params_underscored', 'stv_dist_no_quota_partial_caps', 'stv_dist_no_quota_none_caps', 'stv_dist_no_quota_full_caps',
                      'stv_dist_quota_partial_caps', 'stv_dist_quota_none_caps', 'stv_dist_quota:noquota', 'stv_dist_quota:droopname',
                      'stv_dist_quota:harecallable', 'stv_dist_quota:constant', 'foreign_first:other_parameters', 'hash_alike', 'hash_alike:mersenne', 'hash_alike:neg', 'hash_alike:key_order', 'hash_alike:numtype', 'module_function',
                      'ctor_param_nondefault', 'names:int0', 'names:empty0', 'names:person', 'shared_rank3', 'zero_votes2',
@@ -1671,6 +1782,8 @@ def _tag_calls(TG, targets, calls, tags):
                 tags.append('nested_prev_gains')
         if t.get('score_grid'):
             tags.append('score_params_underscored')
+        if t.get('eliminator'):
+            tags.append('eliminator_mixed_candidates')
         if t.get('stv_grid') and c.get('_stv'):
             tags.append(f"stv_dist_{'no_quota' if t['stv_grid'] == 'noquota' else 'quota'}_{c['_stv']}_caps")
             tags.append('stv_dist_quota:' + t['stv_grid'])
@@ -1787,6 +1900,11 @@ def generate(rng, tier):
         for _ in range(6 if tier == 'quick' else 50):
             calls = [dict(TG[name]['gen'](rng), t=0) for _ in range(rng.randint(2, 4))]
             yield _mk([name], calls, _tag_calls(TG, [name], calls, ['score_grid']))
+    # (5d''') vote eliminators: both rejection routes in every order
+    for name in [n for n in names if TG[n].get('eliminator')]:
+        for _ in range(3 if tier == 'quick' else 30):
+            calls = [dict(TG[name]['gen'](rng), t=0) for _ in range(rng.randint(2, 3))]
+            yield _mk([name], calls, _tag_calls(TG, [name], calls, ['eliminator_directed']))
     # (5e) inputs that hash alike or are equal up to key order, against an isolated reference
     yield from _hash_alike(rng, TG, 120 if tier == 'quick' else 800)
     # (6) a class found by reflection that the table does not know: try it with no arguments on simple votes
